@@ -5,7 +5,7 @@ Stand-ins
                    and explicitly composed substances, catalysts, inactive parts) with float rate constants 1e-2..1e2 and
                    random non-negative float states (entries exactly 0 with probability 1/4); element counts > 0
                    (explicit zero counts are normalised away, the charge entry may be 0):
-                   h = extra['max_euler_step_cb'](0, state) must be a finite number >= 0 and
+                   h = extra['max_euler_step_cb'](0, state) must be a finite number >= 0 (>= -1e-9 * shortest characteristic time, for rounding) and
                    0 - tol <= y_i + h*f_i <= ub_i + tol for every substance, where f is the stand-in's own mass-action
                    right-hand side (rational arithmetic) and ub_i = min over the elements e of substance i of
                    (sum_j comp_j[e]*y_j) / comp_i[e] (own computation; charge is not an element; no element -> inf).
@@ -94,11 +94,14 @@ def check_euler(case):
     if not ok:
         return ["max_euler_step_cb raised " + h]
     out = []
-    if not (0 <= h < float("inf")):
-        return ["max_euler_step_cb returned h = %r, expected a finite step h >= 0" % h]
     yq = {s: Fraction(v) for s, v in case["y"].items()}
     f = G.oracle_rates(spec, yq, [G.exact(rx["k"]) for rx in base["rxns"]])
     ub = elemental_bounds(comp, yq)
+    # h >= 0 up to rounding: a state sitting exactly on its bound gives (ub - y)/f = -1e-17-ish in floating point.
+    # T = shortest characteristic time max(y_i, ub_i)/|f_i| (capped at 1); h >= -1e-9*T is accepted.
+    T = min([1.0] + [float(max(yq[s], ub[s] if ub[s] != float("inf") else yq[s]) / abs(f[s])) for s in names if f[s] != 0])
+    if not (-1e-9 * T <= h < float("inf")):
+        return ["max_euler_step_cb returned h = %r, expected a finite step h >= 0 (characteristic time %.3g)" % (h, T)]
     hq = Fraction(h)
     for s in names:
         new = yq[s] + hq * f[s]
